@@ -86,3 +86,38 @@ PROPS = {
                         "child scalar = 0 (probability 2^-256) is excluded by hypothesis in C18_neuter_child_comm"],
     },
 }
+
+WALLET_TB = ["goleveldb transactions (law: commit atomic+durable, discard leaves no trace)",
+             "scrypt + secretbox (law: a box opens only under the passphrase it was sealed with; passphrases are symbolic tokens)",
+             "secp256k1 / HD derivation (keys are symbolic (keystore, branch, index) identities; byte-level derivation is C18)"]
+WALLET_ASSUME = ["hand-written model Model/Wallet.lean; agreement with manager.go/addrmgr.go checked on every run by the correspondence "
+                 "stream (every op result + a canonical dump of the running instance after every op, real leveldb, fast scrypt)",
+                 "the harness never calls Unlock on an already unlocked wallet and compares master-key liveness only while locked "
+                 "(DESIGN.md 4.A: second-Unlock quirk)",
+                 "which keystore GenerateNewPublicKey picks (Go map order) is fed to the model as the observed choice"]
+
+def wallet(pid, level_text, extra=None):
+    h = {"name": "wallet", "pkg": "harness/wallet", "driver": "MassVerif/Driver/Wallet.lean",
+         "quick": {"n": 40, "len": 30, "focus": pid}, "thorough": {"n": 600, "len": 60, "focus": pid},
+         "search": {"n": 300, "len": 40, "focus": pid}}
+    cfg = {"props": ["MassVerif.Props." + pid], "drivers_mod": ["MassVerif.Driver.Wallet"], "harnesses": [h],
+           "level_text": level_text,
+           "level_note": "Trusted: Lean kernel; leveldb, scrypt/secretbox and secp256k1 as laws/parameters (symbolic treatment); the "
+                         "model-to-code tie is a differential check, not a proof.",
+           "trusted_base": WALLET_TB, "assumptions": WALLET_ASSUME}
+    if extra:
+        cfg.update(extra)
+    return cfg
+
+PROPS.update({
+    "C02": wallet("C02", "Unbounded proof (Lean 4), by induction over arbitrary operation histories of the wallet model (durable image / "
+                  "memory image / lock state): the running instance always shows exactly the durable image (coherence invariant), a "
+                  "restart with the current public passphrase presents the same keystores, remarks, counters and passphrases, locked; "
+                  "a wrong public passphrase fails and alters nothing; an operation that reports an error leaves the store untouched. "
+                  "Tied to the code by replaying random histories with restarts on the real keystore manager (results + dump diffed)."),
+    "C03": wallet("C03", "Unbounded proof (Lean 4) over the same wallet model: one private passphrase seals every keystore in every "
+                  "reachable state; unlock/export/delete/passphrase-change succeed only with it and a superseded one opens nothing; "
+                  "signing needs an unlocked wallet; in every reachable locked state no keystore holds private keys, key-decrypting "
+                  "keys or a passphrase hash (the full-strength theorem, provable after the fix of F3). The harness dumps which secret "
+                  "fields are live in the real instance after every operation."),
+})
